@@ -15,7 +15,7 @@ COQ = os.path.join(VERIF, "coq")
 TH = os.path.join(COQ, "theories")
 BUILD = os.path.join(VERIF, ".build")
 GO = "go1.26.8"
-GOENV = dict(GOFLAGS="-mod=mod", GOPROXY="off", GOSUMDB="off", GOTOOLCHAIN="local", CGO_ENABLED="1")
+GOENV = dict(GOFLAGS="-mod=readonly", GOPROXY="off", GOSUMDB="off", GOTOOLCHAIN="local", CGO_ENABLED="1")
 
 STD_AXIOMS_OK = {
     # axioms declared by Coq's standard library that a check may list in its spec under allowed_axioms
@@ -110,7 +110,6 @@ def run_translators(names, log):
         shutil.rmtree(tmp, ignore_errors=True)
         os.makedirs(tmp)
         env = dict(GOENV)
-        env["GOFLAGS"] = "-mod=mod"
         rc, out = sh([GO, "run", ".", "-repo", REPO, "-out", tmp], cwd=d, env=env, timeout=600)
         log.append("translator %s rc=%d\n%s" % (n, rc, out[-4000:]))
         if rc != 0:
@@ -193,6 +192,13 @@ def analyse_cone(props_rel):
         names = [m.group(2) for m in THEOREM_RE.finditer(src)]
         vo = p[:-2] + ".vo"
         built = os.path.exists(vo) and os.path.getmtime(vo) >= os.path.getmtime(p)
+        if built:
+            # a .vo older than the .vo of something it requires is stale (its rebuild failed)
+            for m in REQ_RE.finditer(src + "\n"):
+                for mod in m.group(1).split():
+                    dvo = os.path.join(TH, mod.strip(".").replace(".", "/") + ".vo")
+                    if not os.path.exists(dvo) or os.path.getmtime(dvo) > os.path.getmtime(vo) + 1e-6:
+                        built = False
         info["obligations"] += len(names)
         if built:
             info["discharged"] += len(names)
@@ -229,7 +235,10 @@ def coq_eval_shard(path):
     if rc != 0 or not m:
         return dict(path=path, ok=False, error=out[-3000:], idx=[], s=time.time() - t)
     body = m.group(1).strip()[1:-1].strip()
-    idx = [int(re.sub(r"%\w+", "", x).strip()) for x in body.split(";")] if body else []
+    try:
+        idx = [int(re.sub(r"%\w+", "", x).strip()) for x in body.split(";")] if body else []
+    except ValueError:
+        return dict(path=path, ok=False, error="cannot parse mismatch list (import BinNat / NArith so that N prints as a numeral): " + body[:300], idx=[], s=time.time() - t)
     return dict(path=path, ok=True, idx=idx, s=time.time() - t)
 
 
